@@ -3,7 +3,9 @@
 use orx_concurrent_iter::*;
 fn main() {
     let vec: Vec<std::cell::Cell<i32>> = vec![std::cell::Cell::new(1), std::cell::Cell::new(1)];
-    let iter = vec.into_con_iter();
+    // fully qualified: with the method syntax rustc reports the failed bound of `Vec<T>: IntoConcurrentIter` as
+    // "`Vec<_>` is not an iterator" (the blanket impl for iterators has a method of the same name)
+    let iter = IntoConcurrentIter::into_con_iter(vec);
 
     std::thread::scope(|s| {
         s.spawn(|| {
